@@ -15,11 +15,14 @@ Proof.
   all: unfold py_parse, parse, parse_front, valcksum.
   all: cbn [g_len g_sub g_add g_band g_slice slice_of g_le g_lt g_in existsb gbytes gint bind g_eq pv_eq g_is_none gnone negb
        g_calc_checksum g_getinputmode g_bytes2val].
-  all: rewrite ?truth_land1, ?bytes2val_U2, <- ?app_assoc, ?app_nil_r.
+  all: rewrite ?(Z.land_comm 1 (Z.of_N validate)), ?truth_land1, ?bytes2val_U2, <- ?app_assoc, ?app_nil_r.
   all: cbn [bind g_eq pv_eq].
   all: atoms;
     cbn [bind orb andb negb run_call String.eqb Ascii.eqb Bool.eqb f_cls f_id f_payload];
+    atoms; cbn [bind orb andb negb run_call String.eqb Ascii.eqb Bool.eqb f_cls f_id f_payload];
     try reflexivity; try (exfalso; lia);
+    cbn [gbytes gint]; rewrite ?N2Z.id, ?truth_gbool;
+    atoms; try (exfalso; lia); cbn [bind orb andb negb run_call String.eqb Ascii.eqb Bool.eqb f_cls f_id f_payload];
     cbn [gbytes gint]; rewrite ?N2Z.id, ?truth_gbool;
     try match goal with |- context [Z.of_N ?m <? 0] => destruct (Z.of_N m <? 0) eqn:?; [exfalso; lia|] end;
     cbn [orb]; reflexivity.
